@@ -42,9 +42,13 @@ def _case(mats, wl_kind, zero=None):
             lams = [E.real('lam', lo=0.05, hi=50)]
             wl = lams[0]
         else:
-            n = int(wl_kind)
+            n = int(str(wl_kind).rstrip('tl'))
             lams = [E.real('lam%d' % i, lo=0.05, hi=50) for i in range(n)]
             wl = np.array(lams, dtype=object if E.symbolic else float)
+            if str(wl_kind).endswith('t'):
+                wl = tuple(lams)            # any sequence is a vector of wavelengths
+            elif str(wl_kind).endswith('l'):
+                wl = list(lams)
         calc = nsf.neutron_composite_sld(materials, wavelength=wl)
         warr = np.array(ws, dtype=object if E.symbolic else float)
         out = calc(warr, density=rho)
@@ -54,6 +58,11 @@ def _case(mats, wl_kind, zero=None):
         for w, m in zip(ws, materials):
             total = total + w * m
         names = ['sld_re', 'sld_im', 'sld_inc']
+        if zero == 'density':
+            # the direct calculation at density 0 gives zeros as well
+            dz = nsf.neutron_sld(total, density=rho, wavelength=lams[0])
+            for nme, dv in zip(names, dz):
+                E.eq('zero_density_direct.' + nme, dv, 0)
         if zero is not None:
             for nme, o in zip(names, out):
                 if isinstance(o, np.ndarray):
@@ -132,7 +141,7 @@ def cases(tier):
     to = 30000 if not th else 120000
     out = []
     specs = [([['X', 'Y']], 'scalar'), ([['X', 'Y'], ['D', 'Y']], 'scalar'), ([['X'], ['Yi', 'H'], ['X']], '2'),
-             ([['Xq', 'Y'], ['D']], '1')]
+             ([['Xq', 'Y'], ['D']], '1'), ([['X', 'Y'], ['D']], '2t'), ([['X', 'Y'], ['D', 'H']], '1t'), ([['X'], ['D']], '2l')]
     if th:
         specs += [([['X', 'Y'], ['D', 'Y'], ['Z'], ['X', 'Y']], 'scalar'), ([['X', 'Y'], ['D', 'Y']], '3'),
                   ([['Xiq', 'Yq'], ['H', 'H1', 'D'], ['Z']], '2')]
